@@ -3,6 +3,7 @@ package main
 import (
 	"fmt"
 	"go/token"
+	"go/types"
 	"regexp"
 	"sort"
 	"strconv"
@@ -65,9 +66,44 @@ func compositeFields(fn *ssa.Function, obj ssa.Value) map[string]ssa.Value {
 				continue
 			}
 			out[fieldName(fa.X.Type(), fa.Field)] = st.Val
+			// the rules name the fields by their role; a renamed unexported field keeps its role through its type
+			if role := algoFieldRole(fa.X.Type(), fa.Field, st.Val); role != "" {
+				if _, taken := out[role]; !taken || fieldName(fa.X.Type(), fa.Field) == role {
+					out[role] = st.Val
+				}
+			}
 		}
 	}
 	return out
+}
+
+// algoFieldRole: the role of field idx of an algorithm value of package xmlenc, read from its type: the identifier (a
+// string), the key size (an int), the block-cipher constructor (func([]byte) (cipher.Block, error)), the digest
+// constructor (func() hash.Hash or a crypto.Hash) and the two RSA key operations (by the key type they take).
+func algoFieldRole(owner types.Type, idx int, val ssa.Value) string {
+	st, ok := derefType(owner).Underlying().(*types.Struct)
+	if !ok || idx >= st.NumFields() {
+		return ""
+	}
+	ft := st.Field(idx).Type()
+	ts := types.TypeString(ft.Underlying(), nil)
+	switch {
+	case ts == "string":
+		if s, ok := constStr(val); ok && strings.HasPrefix(s, "http://www.w3.org/") {
+			return "algorithm"
+		}
+	case ts == "int":
+		return "keySize"
+	case ts == "func([]byte) (crypto/cipher.Block, error)":
+		return "cipher"
+	case ts == "func() hash.Hash" || strings.HasSuffix(types.TypeString(ft, nil), "crypto.Hash"):
+		return "hash"
+	case strings.HasPrefix(ts, "func(") && strings.Contains(ts, "*crypto/rsa.PublicKey"):
+		return "keyEncrypter"
+	case strings.HasPrefix(ts, "func(") && strings.Contains(ts, "*crypto/rsa.PrivateKey"):
+		return "keyDecrypter"
+	}
+	return ""
 }
 
 type algoValue struct {
